@@ -8,6 +8,7 @@ pid = sys.argv[1]
 src = "/var/tmp/seedout_%s" % pid
 offset = int(sys.argv[sys.argv.index("--offset") + 1]) if "--offset" in sys.argv else 6
 keep = "--keep" in sys.argv
+hoffset = int(sys.argv[sys.argv.index("--hoffset") + 1]) if "--hoffset" in sys.argv else 0
 
 def outcome(out):
     viol = out.get("violation_lines") or []
@@ -20,7 +21,7 @@ for i0 in sorted(os.listdir(src)):
     if not os.path.isdir(sdir) or not os.path.exists(os.path.join(sdir, "patch.diff")):
         continue
     harmless = i0.startswith("h")
-    name = "%s_%s" % (pid, i0 if harmless else str(int(i0) + offset))
+    name = "%s_%s" % (pid, ("h%d" % (int(i0[1:]) + hoffset)) if harmless else str(int(i0) + offset))
     d = os.path.join(here, "seeded", name)
     os.makedirs(d, exist_ok=True)
     for f in os.listdir(sdir):
